@@ -40,7 +40,7 @@ def design_level(ctx):
 def run(tier, seed):
     ctx = core.Ctx("C03", tier, seed, LEVEL)
     design_level(ctx)
-    cfgs = ["MC_C03_q1", "MC_C03_q2"] if tier == "quick" else ["MC_C03_t1", "MC_C03_t2"]
+    cfgs = ["MC_C03_q1", "MC_C03_q2"] if tier == "quick" else ["MC_C03_t1", "MC_C03_t2", "MC_C03_t3"]
     cases = []
     for cfg in cfgs:
         r = core.tlc("MC_C03", cfg, workers=8)
